@@ -229,6 +229,14 @@ def monitor_dirw(m, ans):
         bad.append("dir_size %d but %d bytes written" % (size, len(b)))
     if toolong:
         bad.append("name longer than 256 bytes stored")
+    # the directory inode must announce the listing size (+3) without truncation, and a basic inode only fits 16 bits
+    try:
+        k = f.index(next(x for x in f if x.startswith("inode=")))
+        isize = int(f[k + 2])
+        if isize != size + 3:
+            bad.append("directory inode announces size %d for a listing of %d bytes (+3)" % (isize, size))
+    except (StopIteration, ValueError, IndexError):
+        bad.append("inode fields missing")
     return bad, toolong
 
 
@@ -505,6 +513,10 @@ def pieces(ctx, harness):
                               {"kind": "ops", "line": l, "impl": a, "witness_model": o, "repaired_model": b})
             elif bad:
                 report(ctx, "ids:" + l, "id table: %s (impl=%s)" % (bad, a), {"kind": "ops", "line": l, "impl": a, "model": b})
+            elif a != b and a == o:
+                # the limit of the unrepaired code (0x10000 instead of 0xFFFF) seen from the other side: same defect
+                report(ctx, K_D8, "sqfs_id_table refuses only the 65537th distinct id (%s); the u16 id_count can announce 65535" % a,
+                       {"kind": "ops", "line": l, "impl": a, "witness_model": o, "repaired_model": b})
             elif a != b:
                 report(ctx, "corr:" + l, "correspondence broke for %s: impl=%s model=%s" % (l, a, b), {"kind": "ops", "line": l}, found_input=False)
     ctx.log("writer pieces: %d op lines, %.1fs" % (len(lines) + len(d8_lines), time.time() - t0))
@@ -882,6 +894,7 @@ def image_jobs(ctx):
     # listing around 8 KiB of metadata and around 64 KiB (basic vs extended directory inode)
     for n, nl in ([(30, 250), (254, 256)] if q else [(30, 250), (31, 255), (32, 256), (247, 256), (248, 256), (249, 256), (254, 256), (251, 252), (260, 256), (700, 100)]):
         job({"kind": "bigdir", "n": n, "namelen": nl, "empty": True, "xattr": rng.random() < 0.3}, rng.choice(comps), 4096, rng.choice([[], ["-e"]]))
+    job({"kind": "packdir", "n": 20}, rng.choice(comps), 4096, rng.choice([[], ["-e"]]))
     job({"kind": "ids", "n": 300}, rng.choice(comps), 4096, [])
     job({"kind": "xattrs", "n": 600 if q else 1100}, rng.choice(comps), 4096, [])
     job({"kind": "mixed", "n": 30}, "gzip", 131072, ["-B", "8192"], devblk=8192)
@@ -911,7 +924,20 @@ def run_image_job(ctx, tools, unz, job, idx):
     img = wd / "out.sqfs"
     env = ctx.san_env()
     res = {"job": job, "viol": [], "tree_bad": [], "rc": None, "stderr": "", "nodes": len(t.nodes), "summary": ""}
-    if d["tool"] == "gensquashfs":
+    if d["shape"]["kind"] == "packdir":
+        # a real directory with hard links (dir scan + hard link detection + reorder_hard_links)
+        root = wd / "root"
+        (root / "a" / "b").mkdir(parents=True)
+        (root / "z").mkdir()
+        for i in range(d["shape"]["n"]):
+            (root / "a" / ("f%03d" % i)).write_bytes(rng.randbytes(rng.choice([0, 1, 50, d["bs"] + 3])))
+        for i in range(0, d["shape"]["n"], 3):
+            os.link(root / "a" / ("f%03d" % i), root / ("l%03d" % i))
+            os.link(root / "a" / ("f%03d" % i), root / "z" / ("m%03d" % i))
+        os.symlink("a/f000", root / "a" / "b" / "sl")
+        r = shx([str(tools["gensquashfs"]), "-q", "-f", "-c", d["comp"], "-b", str(d["bs"]), "-D", str(root)] + d["opts"] + [str(img)], env=env, timeout=600)
+        t = None
+    elif d["tool"] == "gensquashfs":
         cmd = [str(tools["gensquashfs"]), "-q", "-f", "-c", d["comp"], "-b", str(d["bs"]), "-F", str(wd / "pack.txt"), "-D", str(wd)] + d["opts"]
         if has_x:
             cmd += ["-A", str(wd / "xattr.txt")]
@@ -927,8 +953,17 @@ def run_image_job(ctx, tools, unz, job, idx):
         res["viol"] = [v for v in val if v.startswith("viol ")]
         res["layout_bad"] = [v for v in val if v.startswith("layout-model ")]
         res["summary"] = next((v for v in val if v.startswith("summary")), "")
-        if not job.get("ids65536"):
+        if not job.get("ids65536") and t is not None:
             res["tree_bad"] = compare_tree(t, par, via_tar=(d["tool"] == "tar2sqfs"))
+        if t is None:
+            # hard links must show up as several paths sharing one inode whose link count is the number of paths
+            inos = {}
+            for l in par:
+                o = json.loads(l)
+                if o.get("type") == "file":
+                    inos.setdefault(o["ino"], []).append(o["nlink"])
+            if not any(len(v) == 3 and v[0] == 3 for v in inos.values()):
+                res["tree_bad"] = ["no file with three hard links found in an image packed from a directory that has them"]
         if idx % 5 == 0 and d["shape"]["kind"] in ("mixed", "bigdir"):
             res["rd_bad"] = cross_rdsquashfs(ctx, tools, img, par)
     import shutil
